@@ -20,7 +20,8 @@ RULE = ("Generated: shape-directed random parameter graphs (depth <= 4, rank 1..
         "compared with W @ input. Non-trivial = a "
         "non-default axis, rank >= 2, a composition of >= 2 operators, or >= 2 folds; distinct = hash of case.")
 ASSUMPTIONS = ["tolerance: 1e-9 relative plus 1e3 x the change of the reference under a 1e-13 relative "
-               "perturbation of the leaves (conditioning estimate)",
+               "perturbation of the leaves (conditioning estimate); in the perturbed evaluation every coefficient of a "
+               "polynomial product also moves by 1e-13*|a|*|b| (rounding model of the FFT convolution cirkit uses)",
                "folding exercised through cirkit.backend.torch.compiler._fold_parameters (private helper)"]
 
 
@@ -139,7 +140,9 @@ def _as_sum_weight(case, graphs):
     pert = _perturb(vals, case["vseed"])
     for j, (sl, e, P, k) in enumerate(outs):
         with np.errstate(all="ignore"):
-            W, Wp = ref.param(P, vals), ref.param(P, pert)
+            W = ref.param(P, vals)
+            with ref.fft_noise(case["vseed"]):
+                Wp = ref.param(P, pert)
         E = vals[e]
         xi = X[:, k].astype(int)
         r = (W @ E[:, xi]).T
@@ -192,7 +195,9 @@ def run_case(case):
     pert = _perturb(vals, case["vseed"])
     with np.errstate(all="ignore"):
         for P, _ in built:
-            refs.append((ref.param(P, vals), ref.param(P, pert)))
+            with ref.fft_noise(case["vseed"]):
+                rp_ = ref.param(P, pert)
+            refs.append((ref.param(P, vals), rp_))
     for (P, _), (r, _rp) in zip(built, refs):
         if tuple(r.shape) != tuple(P.shape):
             raise Violation("declared-shape", "declared-shape-vs-definition",
